@@ -422,3 +422,9 @@ CHECKS["C06"]["rule"] += (" Save-fault layer (TestVF_C06_SaveFault): after a gen
                           "directory on the temporary file's name, a directory where the state file belongs) and one more model-valid command is issued; "
                           "oracle: what the command reports is true - an error means `list` and the routing matrix are as before it, success means they are "
                           "as the model says after it. Every case of that layer is non-trivial.")
+
+CHECKS["C09"]["layers"].append(L("TestVF_C09_Simultaneous", 400, 4000, qshards=3))
+CHECKS["C09"]["rule"] += (" Simultaneity layer (TestVF_C09_Simultaneous): 4-8 targets, 8-30 probe rounds in which a drawn subset answers 500 (all / none in a third "
+                          "of the rounds), so several probe results flip targets at one virtual instant; the probe transport hands answers of one instant to the "
+                          "proxy at the same real moment (spin rendezvous). After each round exactly the targets whose latest probe succeeded receive requests "
+                          "(503 when none), and each of them does. Non-trivial there = two or more rounds in which at least two targets changed together.")
